@@ -1174,7 +1174,7 @@ func genScenario(r *lib.Rng, w *writer) {
 
 func main() {
 	if len(os.Args) < 3 {
-		fmt.Fprintln(os.Stderr, "usage: c07 attr <out> <maxlen> <nrandom> | gen <out> <n> | time <out> | sub <out> | casevar <out> | replay <case.json>")
+		fmt.Fprintln(os.Stderr, "usage: c07 attr <out> <maxlen> <nrandom> | gen <out> <n> | time <out> | sub <out> | casevar <out> | samekey <out> | replay <case.json>")
 		os.Exit(2)
 	}
 	switch os.Args[1] {
@@ -1200,6 +1200,8 @@ func main() {
 		genSub(os.Args[2])
 	case "casevar":
 		genCaseVar(os.Args[2])
+	case "samekey":
+		genSameKey(os.Args[2])
 	case "gen":
 		n, _ := strconv.Atoi(os.Args[3])
 		w := newWriter(os.Args[2])
